@@ -88,6 +88,30 @@ where
     }
 }
 
+impl<I> VRing<I> for Ratio<I>
+where
+    I: VInt,
+    for<'x> &'x I: VIntOps<I>,
+{
+    fn zero_comps(&self) -> Vec<I> {
+        vec![self.numer().clone()]
+    }
+    const ARITY: usize = 1;
+    fn build(xs: &[I]) -> Self {
+        Ratio::from(xs[0].clone())
+    }
+    fn ring_name() -> &'static str {
+        "Q"
+    }
+    fn associate(&self, o: &Self) -> VF<I> {
+        // in a field: both zero or both non-zero
+        VF::Or(vec![VF::And(vec![VF::zero(self.numer().clone()), VF::zero(o.numer().clone())]), VF::And(vec![VF::nonzero(self.numer().clone()), VF::nonzero(o.numer().clone())])])
+    }
+    fn unit_formula(&self) -> VF<I> {
+        VF::nonzero(self.numer().clone())
+    }
+}
+
 pub fn is_zero_f<I, R>(x: &R) -> VF<I>
 where
     I: VInt,
